@@ -77,6 +77,8 @@ def check(chk):
     for name, loop in c15.find_phases(fn):
         c15.phase_rules(chk, m, fn, name, loop)
     c18.r182_groups(chk, m)
+    from . import shared
+    shared.paux_rules(chk, m, 'R14.4')
     chk.decline('uniqueness of ids per file and reachability through the table of contents for concrete documents (runtime)')
 
 
